@@ -109,7 +109,8 @@ def run(ctx):
     docs = {}
     states = trans = 0
     plans = ([("bfs8", cfg(8)), ("bfs7v", cfg(7, variants=True))] if quick
-             else [("bfs9", cfg(9)), ("bfs8v", cfg(8, variants=True)), ("bfs8t2", cfg(8, maxwords=2, maxtables=2))])
+             else [("bfs9", cfg(9)), ("bfs7v", cfg(7, variants=True)), ("bfs8t2", cfg(8, maxwords=2, maxtables=2)),
+                   ("bfs7free", cfg(7, maxlist=2, ordinary=False))])
     exhaustive_counts = {}
     for name, c in plans:
         res = tlc.run(ctx, "WikiDoc", c, name="WikiDoc_" + name, timeout=1500, heap="8g")
